@@ -809,8 +809,16 @@ def run(tier, replay=None):
 
     nonfin = {"regular fit, non-finite peaks in the list": 0, "singular, non-finite peaks in the list": 0,
               "UBI element not a number": 0, "kinds": {}}
+    # thorough: TLC checks the invariants in every state of the length-4 scope; the replay takes every list of length <= 3
+    # and a seeded 30 % of the lists of length 4 (2.8M cases x 8 routes took over an hour)
+    rng_share = np.random.default_rng(common.seed() + 606)
+    share4 = 1.0 if quick else 0.3
+    skipped4 = 0
     for fam, idx, case in [("", i, c) for i, c in enumerate(cases)] + [("nonfinite", i, c) for i, c in enumerate(ncases)]:
         npk = len(case["peaks"])
+        if share4 < 1.0 and not fam and npk >= 4 and rng_share.random() >= share4:
+            skipped4 += 1
+            continue
         reps_list = [1]
         # tiling across the OpenMP chunk size for a seeded subset
         if npk and rng.random() < (0.02 if quick else 0.05) * (0.5 if fam else 1):
@@ -862,6 +870,7 @@ def run(tier, replay=None):
     if len(chk.violations) <= 20:
         reentrancy(chk, cases, ncases, plans, scales, rng, quick)
     chk.notes["non_finite_cases"] = nonfin
+    chk.notes["main_run_length4_share_replayed"] = {"share": share4, "not_replayed": skipped4}
     chk.notes["singular_nonempty_cases"] = nsing
     chk.notes["refined_cases"] = nref
     chk.notes["per_scale_singular_regular"] = per_scale
